@@ -202,6 +202,7 @@ def run(ctx):
                         signature="C13:digest:abstract-implementers-grow-after-import")
         _mutable_defaults(ctx)
         _directed(ctx, pk)
+        _faithful_histories(ctx, pk)
     finally:
         pk.close()
     return core.finish(ctx, obligations, discharged, names, RULE,
@@ -399,3 +400,196 @@ def _directed(ctx, pk):
         if a != b:
             ctx.violate("after a failed %%import on a reused loader, '<dirb/>' gives %r on the used schema and %r on a fresh copy" % (a, b),
                         {"schema_xml": xml, "texts": steps}, signature="C13:directed:reused-loader:probe")
+
+
+# ---------------------------------------------------------------------------------------------------------------------
+# histories WITH %import against the faithful model (lean/ZCV/Model/History.lean: runHistoryApp)
+
+FAITHFUL_RULE = ("histories with '%import' against the faithful history model (driver op histapp = runHistoryApp): worlds of "
+                 "harness/zcv/props/c12.py (abstract slots, 0..2 flat component packages, schema-level imports) plus a component that "
+                 "breaks off at a type name it may not define after / before registering implementers, a component whose type has "
+                 "the name of another component's implementer without implementing, and a component with its own abstract type; "
+                 "3..6 loads per history on one schema object (texts of '%import' and '<type/>' lines, some with overrides, plus "
+                 "directed tails that use a leaked type without importing it / import the same-named non-implementer); after "
+                 "EVERY load: outcome and value tree real vs model, digest of the real schema object vs the model's application "
+                 "schema (exact), and - real against real - the same load on a fresh schema object given the implementer tables "
+                 "the used object had (must agree: the history acts through nothing but those tables) and the digest with the "
+                 "tables blanked against the fresh digest")
+
+
+def _blank_tables(d):
+    import copy
+    d = copy.deepcopy(d)
+    for n, te in d[1]:
+        if te[0] == "abstract":
+            te[2] = []
+    return d
+
+
+def _with_tables(sd, used):
+    """a freshly loaded copy of the schema whose abstract types list, in addition, what the used object's abstract types
+    list (only names matter to a load; the type objects are taken over from the used object)"""
+    fresh = F.load_real(sd)
+    for n in used.gettypenames():
+        t = used.gettype(n)
+        if t.isabstract():
+            ft = fresh.gettype(n)
+            for k, v in t:
+                if not ft.hassubtype(k):
+                    ft._subtypes[k] = v
+    return fresh
+
+
+def _faithful_histories(ctx, pk):
+    from . import c12
+    from ..sexp import Atom
+    rng = ctx.rng
+    nworlds = 150 if ctx.thorough() else 16
+    nhist = 6 if ctx.thorough() else 4
+    known_sig = "C13:digest:abstract-implementers-grow-after-import"
+    ctx.notes.append(FAITHFUL_RULE)
+    for _ in range(nworlds):
+        sd, abss, con, impl, pkgs, bad = c12.gen_world(rng, pk)
+        if any(e[2] for e in pkgs):
+            ctx.count("faithful:world-skipped-nested-components")
+            continue                      # the model's packages are flat
+        real0 = F.load_real(sd)
+        elab = c12.world_elab(sd, abss, impl, pkgs)
+        if not cfgstream.check_digest(ctx, sd, real0, elab):
+            continue
+        pkgs = list(pkgs)
+        known_names = set(con) | set(abss) | {t.name for e in pkgs for t in e[1]}
+        # a component that breaks off: an implementer, then a name the schema (or a schema-level import) already has, then
+        # another implementer that is never reached
+        clash_name = rng.choice(con + abss)
+        ct = [F.TypeD("cla%d" % rng.randint(0, 2), [], implements=rng.choice(abss)), F.TypeD(clash_name, []),
+              F.TypeD("clb", [], implements=rng.choice(abss))]
+        if rng.random() < 0.3:
+            ct = ct[1:]                   # breaks off at once: nothing is registered
+        pkgs.append((pk.add_component(ct), ct, ()))
+        # a component with its own abstract type, an implementer of it and an implementer of the schema's
+        own = [F.AbsD("pab"), F.TypeD("pown", [], implements="pab"), F.TypeD("papp", [], implements=rng.choice(abss))]
+        pkgs.append((pk.add_component(own), own, ()))
+        # a component with a type named like another component's implementer, NOT implementing (the C12 known finding)
+        impls_of_pkgs = [t.name for e in pkgs for t in e[1] if not t.abstract and t.implements in abss]
+        tw = [F.TypeD(rng.choice(impls_of_pkgs), [F.KeyD("twin", "string")])]
+        pkgs.append((pk.add_component(tw), tw, ()))
+        mp = [pkggen.model_pkg(e[0], e[1], elab) for e in pkgs] + \
+             [[bad["nocomp"], Atom("nocomponent")], [bad["module"], Atom("notpackage")],
+              [bad["missing"], Atom("notimportable")], ["a..b", Atom("illegalname")], [".x", Atom("illegalname")]]
+        slots = [(c.name if c.name not in ("*", "+", None) else None, c.type) for c in sd.children if c.kind == "sect"]
+        fixed = [f for f, _ in slots if f]
+        gpkgs = [(e[0], [t for t in e[1] if not t.abstract], e[2]) for e in pkgs]      # what the text generator chooses from
+        hists = []
+        statics = [n for n in con if impl.get(n)]
+        twins = [e for e in pkgs if any(t.name in impls_of_pkgs and not t.implements for t in e[1] if not t.abstract)]
+
+        def one_text():
+            r = rng.random()
+            if r < 0.45:
+                # a component, then sections of (some of) the types it brings that implement something
+                e = rng.choice(pkgs)
+                ts = [t.name for t in e[1] if not t.abstract and t.implements and t.name != "pown"]
+                return ["%import " + e[0]] + ["<%s/>" % n for n in rng.sample(ts, min(len(ts), rng.randint(0, 2)))]
+            if r < 0.6 and statics:
+                return ["<%s/>" % rng.choice(statics) for _ in range(rng.randint(1, 2))]
+            if r < 0.75 and twins:
+                # the same-named non-implementer: accepted only when an earlier load leaked the name into the table
+                e = rng.choice(twins)
+                return ["%import " + e[0], "<%s/>" % e[1][0].name]
+            if r < 0.85:
+                # two components in one load
+                a, b = rng.choice(pkgs), rng.choice(pkgs)
+                return ["%import " + a[0], "%import " + b[0]] + ["<%s/>" % t.name for t in (a[1] + b[1]) if not t.abstract and t.implements][:2]
+            return c12.gen_text(rng, abss, con, impl, gpkgs, bad, fixed)
+        for _h in range(nhist):
+            texts = [one_text() for _ in range(rng.randint(2, 5))]
+            # directed tail: a package type without importing it, then through a component that defines it
+            ptypes = sorted({t.name for e in pkgs for t in e[1] if not t.abstract})
+            if ptypes and rng.random() < 0.5:
+                texts.append(["<%s/>" % rng.choice(ptypes)])
+            ovs = [(("plain=ov",) if rng.random() < 0.25 else ()) for _ in texts]
+            hists.append((texts, ovs))
+        # directed: the implementer's component first, then the same-named non-implementer through its own component, then the
+        # implementer's component again (the listed C12 finding: the middle load is accepted on the used object only)
+        for e in twins:
+            nm = e[1][0].name
+            src = [x for x in pkgs if any(t.name == nm and t.implements for t in x[1] if not t.abstract)]
+            if src:
+                texts = [["%import " + src[0][0]], ["%import " + e[0], "<%s/>" % nm], ["<%s/>" % nm], ["%import " + src[0][0], "<%s/>" % nm]]
+                hists.append((texts, [() for _ in texts]))
+        if ctx.driver_ok:
+            reqs = [[Atom("histapp"), elab, mp, [], [], [], [[cfgstream.URL, list(t), list(o)] for t, o in zip(texts, ovs)]]
+                    for texts, ovs in hists]
+            answers = core.driver_batch(reqs)
+        else:
+            answers = [None] * len(hists)
+        fresh_digest = enc(_blank_tables(F.digest(real0)))
+        for (texts, ovs), ans in zip(hists, answers):
+            real = F.load_real(sd)
+            done = []
+            for i, (t, ov) in enumerate(zip(texts, ovs)):
+                text = "\n".join(t) + "\n"
+                twin = _with_tables(sd, real)
+                before = F.digest(real)
+                out, cfg, _ = cfgrun.real_load(real, text, cfgstream.URL, ov, reuse=False)
+                outt, cfgt, _ = cfgrun.real_load(twin, text, cfgstream.URL, ov, reuse=False)
+                outf, cfgf, _ = cfgrun.real_load(F.load_real(sd), text, cfgstream.URL, ov, reuse=False)
+                after = F.digest(real)
+                ctx.evaluations += 1
+                ctx.count("faithful:outcome:" + out[0])
+                if any(l.startswith("%import") for h in done for l in h):
+                    ctx.nontriv(("faithful", id(sd), tuple(map(tuple, done)), tuple(t)))
+                done.append(list(t))
+                rep = {"schema_xml": F.render_xml(sd), "schema_level_imports": list(sd.imports),
+                       "packages": {e[0]: F.render_xml(F.SchemaD([], e[1]), "component") for e in pkgs},
+                       "history": [list(h) for h in done], "overrides": [list(o) for o in ovs[: i + 1]], "step": i + 1,
+                       "reused_schema": out[:4], "fresh_schema_with_the_tables": outt[:4], "fresh_schema": outf[:4],
+                       "tables_before": [te for te in before[1] if te[1][0] == "abstract"],
+                       "tables_after": [te for te in after[1] if te[1][0] == "abstract"]}
+
+                def same(a, ca, b, cb):
+                    return a[:4] == b[:4] and (a[0] != "ok" or cfgrun.describe(ca) == cfgrun.describe(cb))
+                # real against real: nothing but the implementer tables changes, and nothing but them acts on a later load
+                if enc(_blank_tables(after)) != fresh_digest:
+                    ctx.violate("after load %d of the history the schema object differs from a fresh one in more than the implementer "
+                                "tables of its abstract types" % (i + 1), rep, signature="C13:faithful:schema-object-changed-beyond-implementers")
+                    break
+                if not same(out, cfg, outt, cfgt) or enc(F.digest(twin)) != enc(after):
+                    ctx.violate("load %d gives %s on the used schema object and %s on a fresh object that was given the same implementer "
+                                "tables (or leaves other tables behind): the history acts through something else" % (i + 1, out[:3], outt[:3]),
+                                rep, signature="C13:faithful:later-load-influenced-beyond-implementers")
+                    break
+                grew = enc(after) != enc(before)
+                if grew:
+                    ctx.count("faithful:tables-grew")
+                    if out[0] != "ok":
+                        ctx.count("faithful:tables-grew-in-a-failed-load")
+                if grew or not same(out, cfg, outf, cfgf):
+                    if not same(out, cfg, outf, cfgf):
+                        ctx.count("faithful:outcome-differs-from-fresh(explained-by-the-tables)")
+                    # the listed finding (and what follows from it, shown above to go through the tables only)
+                    ctx.violate("implementer tables of the application's schema object grow through %import; later loads see them",
+                                rep, signature=known_sig)
+                if ans is None:
+                    continue
+                if ans and ans[0] == "bad-request" or i >= len(ans):
+                    ctx.disagree("faithful-history", rep, "request", ans[:2])
+                    break
+                mo, ms, mstop = ans[i]
+                m = ["ok", mo[1], mo[2]] if mo[0] == "ok" else cfgrun.canon_model(mo)
+                why = cfgrun.compare_load(m, out, cfg, None, ())
+                if why is not None:
+                    rep2 = dict(rep)
+                    rep2["model_stop"] = mstop
+                    ctx.disagree("faithful-history:outcome", rep2, out[:4], [why, m[:5]])
+                    break
+                if enc(ms) != enc(after):
+                    rep2 = dict(rep)
+                    rep2["model_stop"] = mstop
+                    ctx.disagree("faithful-history:schema-object", rep2, [te for te in after[1] if te[1][0] == "abstract"],
+                                 [te for te in ms[1] if te[1][0] == "abstract"])
+                    break
+                if mstop[2] != "none":
+                    ctx.count("faithful:model:component-broke-off")
+        ctx.sample({"faithful_history": hists[0][0], "schema_level_imports": list(sd.imports)}, cap=16)
